@@ -28,7 +28,7 @@ ASSUMPTIONS = [
     "exact-time regime for E1: tick period and tasker periods are integers assigned after construction (skedder.period, framer.period); "
     "decimal periods are covered only by the E2 obligation below",
     "workers are framers with one frame recording the store stamp at every run; controller in back order bids stop all at tick K",
-    "E1 bounds: K <= 4 (quick) / 6 (thorough) ticks, P in [1,3], p_i in [0,7], start time t0 in {0, P, 2P}",
+    "E1 bounds: K <= 4 (quick) / 6 (thorough) ticks, P in [1,3], p_i in [0,7], start time t0 in {0, 2P} (quick) / {0, P, 2P} (thorough), one shard each",
     "E2: Skedder.run's `retime + tasker.period`, `retime > stamp`, `self.stamp += self.period` extracted by AST pattern (a change to any of them changes the encoding); "
     "doubles with P in [2^-7,16], p = m*P exact, m in {2,3,4}, K <= 8 ticks; the converse monotonicity fact (p <= P => every tick) did not solve and is not claimed",
 ]
@@ -77,7 +77,7 @@ def model_runs(P, p, K, abort_at=None, change=None):
     return runs
 
 
-def h(sym, orders, K, mode, P=None, before=None, pmax=7):
+def h(sym, orders, K, mode, P=None, before=None, pmax=7, t0k=None):
     from ioflo.base import skedding
     n = len(orders)
     abort = change = None
@@ -108,7 +108,7 @@ def h(sym, orders, K, mode, P=None, before=None, pmax=7):
         store.create("pnew").value = pnew
     sk = skedding.Skedder(name="s", period=1.0, houses=houses)
     sk.period = P
-    t0 = sym.int("t0", 0, 2) * P        # the run may start at a non-zero time (a multiple of the tick keeps tick times integral)
+    t0 = (sym.int("t0", 0, 2) if t0k is None else t0k) * P        # the run may start at a non-zero time (a multiple of the tick keeps tick times integral)
     sk.stamp = t0
     del STAMPS[:]
     orig_change = store.changeStamp
@@ -345,22 +345,27 @@ def obligations(tier):
         shapes = [["mid"], ["mid", "front"], ["back", "mid"]]
     else:
         shapes = [["mid"], ["mid", "mid"], ["mid", "front"], ["back", "mid"], ["back", "front"], ["mid", "back", "front"], ["front", "mid", "mid"]]
-    for orders in shapes:
-        out.append(Ob("periods/%s/K%d" % ("-".join(orders), K), h, dict(orders=orders, K=K, mode="plain"),
-                      budget=900 if tier == "quick" else 2400, covers=["ran"],
-                      bounds=dict(workers=len(orders), orders=orders, ticks=K, P="[1,3]", p="[0,7]")))
-    for P in (1, 2, 3):
+    # the start time of the run is t0k ticks (a shard parameter: a symbolic start time made a few path conditions
+    # undecidable within the per-path solver budget, which left whole obligations inconclusive)
+    for t0k in ((0, 2) if tier == "quick" else (0, 1, 2)):
+      for orders in shapes:
+        for P in ([None] if t0k == 0 else [1, 2, 3]):     # symbolic tick length only with start time 0 (t0 = t0k * P)
+            out.append(Ob("periods/%s/K%d/start%d%s" % ("-".join(orders), K, t0k, "" if P is None else "/P%d" % P), h,
+                          dict(orders=orders, K=K, mode="plain", t0k=t0k, P=P),
+                          budget=900 if tier == "quick" else 2400, covers=["ran"],
+                          bounds=dict(workers=len(orders), orders=orders, ticks=K, P="[1,3]" if P is None else P, p="[0,7]", start_time="%d ticks" % t0k)))
+      for P in (1, 2, 3):
         for before in (True, False):
             for orders in ([["mid", "mid"]] if tier == "quick" else [["mid", "mid"], ["front", "back"]]):
-                out.append(Ob("abort/%s/K%d/P%d/%s" % ("-".join(orders), K, P, "bidder-first" if before else "bidder-last"), h,
-                              dict(orders=orders, K=K, mode="abort", P=P, before=before),
+                out.append(Ob("abort/%s/K%d/P%d/%s/start%d" % ("-".join(orders), K, P, "bidder-first" if before else "bidder-last", t0k), h,
+                              dict(orders=orders, K=K, mode="abort", P=P, before=before, t0k=t0k),
                               budget=900 if tier == "quick" else 2400, covers=["aborted"],
-                              bounds=dict(workers=len(orders), ticks=K, P=P, victim_period="[0,7]", abort_tick="[0,K]")))
-            out.append(Ob("period-change/mid/K%d/P%d/%s" % (K, P, "bidder-first" if before else "bidder-last"), h,
-                          dict(orders=["mid"], K=K, mode="change", P=P, before=before, pmax=3 if tier == "quick" else 7),
+                              bounds=dict(workers=len(orders), ticks=K, P=P, victim_period="[0,7]", abort_tick="[0,K]", start_time="%d ticks" % t0k)))
+            out.append(Ob("period-change/mid/K%d/P%d/%s/start%d" % (K, P, "bidder-first" if before else "bidder-last", t0k), h,
+                          dict(orders=["mid"], K=K, mode="change", P=P, before=before, pmax=3 if tier == "quick" else 7, t0k=t0k),
                           budget=900 if tier == "quick" else 2400, covers=["period-changed"],
                           bounds=dict(workers=1, ticks=K, P=P, period="[0,3]" if tier == "quick" else "[0,7]", change_tick="[0,K]",
-                                      new_period="[0,3]" if tier == "quick" else "[0,7]")))
+                                      new_period="[0,3]" if tier == "quick" else "[0,7]", start_time="%d ticks" % t0k)))
     ms = [1, 2] if tier == "quick" else [1, 2, 3, 4]
     out.append(Ob("float/exact-multiple-period", e2_drift, dict(K=8, ms=ms), kind="e2", replay=e2_replay, budget=900,
                   bounds=dict(K=8, m=ms, P="double in [2^-7,16]")))
